@@ -19,6 +19,8 @@ VARIABLES id,            \* 0, or the index of a pseudo-random sample
 vars == <<id, sent, form, langs, nest, defs, expr, stack, out>>
 
 TokenSeq == SetToSeq(Tokens)
+(* sentences longer than 3 tokens are enumerated over the structural tokens *)
+LongTokens == {"x", "f", "lp", "rp", "comma", "pre", "post", "inf", "inf2", "at", "colon", "str", "ustr", "sp"}
 
 ---------------------------------------------------------------------------
 Id(n) == [k |-> "id", n |-> n]
@@ -68,7 +70,10 @@ Init ==
 ---------------------------------------------------------------------------
 SentNext ==
   /\ Mode = "sent"
-  /\ IF id = 0 THEN Len(sent) < MaxSent /\ \E t \in Tokens : sent' = Append(sent, t)
+  /\ IF id = 0 THEN /\ Len(sent) < MaxSent
+                    /\ \E t \in Tokens :
+                         /\ Len(sent) >= 3 => (t \in LongTokens /\ \A i \in 1..Len(sent) : sent[i] \in LongTokens)
+                         /\ sent' = Append(sent, t)
                ELSE Len(sent) < SampleLen /\ sent' = Append(sent, Pick(TokenSeq, id, Len(sent), 1))
   /\ UNCHANGED <<id, form, langs, nest, defs, expr, stack, out>>
 
